@@ -171,7 +171,7 @@ def run(ctx):
     ctx.proofs()
     hx = ctx.go_build("c11")
     nseq = 300 if ctx.quick() else 20000
-    nbands = 24 if ctx.quick() else 150
+    nbands = 24 if ctx.quick() else 64
     recs = ctx.jsonl([hx, "-seed", str(ctx.seed), "-nseq", str(nseq), "-bands", str(nbands)], timeout=1800)
     pool = sorted([r for r in recs if r["kind"] == "pool"], key=lambda r: r["i"])
     rows = {r["i"]: r["r"] for r in recs if r["kind"] == "row"}
@@ -216,7 +216,7 @@ def run(ctx):
             band_pairs += [(a, b) for a in mem_ for b in mem_ if a != b]
     pairs += band_pairs
     chosen = set(pairs)
-    want = len(pairs) + (200 if ctx.quick() else 6000)
+    want = len(pairs) + (200 if ctx.quick() else 4000)
     nbase = sum(1 for p in pool if p.get("grp", -1) < 0)
     while len(pairs) < want:
         # two thirds of the random pairs from the base pool (all kinds), one third anywhere
@@ -249,13 +249,13 @@ def run(ctx):
     if ctx.quick():
         mem = band_mem + rnd.sample(mem, min(len(mem), 120))
     else:
-        mem = band_mem + rnd.sample(mem, min(len(mem), 4000))
+        mem = band_mem + rnd.sample(mem, min(len(mem), 2000))
     for (i, j, d, s) in mem:
         if d != s:
             ctx.finding("member:dict-vs-set", "dict and set membership disagree for key %s probe %s" % (pool[i]["v"], pool[j]["v"]), {"x": pool[i]["v"], "y": pool[j]["v"]})
         terms.append("(CMember %d %d %s)" % (i, j, cbool(d)))
         refs.append({"kind": "member", "key": pool[i]["v"], "probe": pool[j]["v"], "found": d})
-    sq = sorts[:70] if ctx.quick() else sorts[:1500]
+    sq = sorts[:70] if ctx.quick() else sorts[:1000]
     for s in sq:
         out = "None" if s.get("out") is None else "(Some %s)" % nats(s["out"])
         if s.get("out") is not None and any(p < 0 for p in s["out"]):
@@ -263,7 +263,7 @@ def run(ctx):
             continue
         terms.append("(CSort %s %s %s)" % (nats(s["items"]), cbool(s["reverse"]), out))
         refs.append({"kind": "sort", "keys": [pool[i]["v"] for i in s["items"]], "keyed": s["keyed"], "reverse": s["reverse"], "out": s.get("out")})
-    mq = minmaxes[:120] if ctx.quick() else minmaxes[:2500]
+    mq = minmaxes[:120] if ctx.quick() else minmaxes[:1500]
     for s in mq:
         failed = s.get("err") == "err"
         out = "None" if "out" not in s else "(Some %d%%nat)" % s["out"]
